@@ -3,6 +3,7 @@
 package k8s
 
 import (
+	"context"
 	"fmt"
 	"sort"
 	"strings"
@@ -15,7 +16,9 @@ import (
 	fake_v1 "github.com/nginx/kubernetes-ingress/pkg/client/clientset/versioned/fake"
 	api_v1 "k8s.io/api/core/v1"
 	networking "k8s.io/api/networking/v1"
+	meta_v1 "k8s.io/apimachinery/pkg/apis/meta/v1"
 	"k8s.io/apimachinery/pkg/runtime"
+	"k8s.io/apimachinery/pkg/types"
 	"k8s.io/client-go/kubernetes/fake"
 	"k8s.io/client-go/tools/cache"
 	k8stesting "k8s.io/client-go/testing"
@@ -25,7 +28,8 @@ import (
 // informer stores filled by the harness) and records what the cluster would see: Events and status
 // writes.  It is the controller-level counterpart of VerifArb (C05, C16).
 type VerifCtl struct {
-	Arb  *VerifArb
+	Arb       *VerifArb
+	LastProbe VProbe
 	lbc  *LoadBalancerController
 	rec  *verifRecorder
 	conf *fake_v1.Clientset
@@ -178,6 +182,71 @@ type VErr struct {
 	Reported bool `json:"reported"`
 }
 
+// VProbe tells whether the real informer event handler of the kind passed the event on to the sync queue.
+// Kind is "add", "update", "delete" or "" (not probed: GlobalConfiguration, delete of an absent object).
+type VProbe struct {
+	Kind      string `json:"kind"`
+	Delivered bool   `json:"delivered"`
+}
+
+func (v *VerifCtl) handlers(kind string) (cache.ResourceEventHandlerFuncs, bool) {
+	switch kind {
+	case "ing":
+		return createIngressHandlers(v.lbc), true
+	case "vs":
+		return createVirtualServerHandlers(v.lbc), true
+	case "vsr":
+		return createVirtualServerRouteHandlers(v.lbc), true
+	case "ts":
+		return createTransportServerHandlers(v.lbc), true
+	}
+	return cache.ResourceEventHandlerFuncs{}, false
+}
+
+func (v *VerifCtl) drainQueue() int {
+	q := v.lbc.syncQueue.queue
+	n := 0
+	for q.Len() > 0 {
+		it, _ := q.Get()
+		q.Done(it)
+		n++
+	}
+	return n
+}
+
+func deepCopyObj(obj interface{}) interface{} {
+	if ro, ok := obj.(runtime.Object); ok {
+		return ro.DeepCopyObject()
+	}
+	return obj
+}
+
+// probe runs the real event handler of the kind on (copies of) the old and the new object, the way the
+// informer would, and reports whether a task reached the sync queue.
+func (v *VerifCtl) probe(kindName string, old interface{}, existed bool, obj interface{}) VProbe {
+	h, ok := v.handlers(kindName)
+	if !ok {
+		return VProbe{}
+	}
+	v.drainQueue()
+	p := VProbe{}
+	switch {
+	case obj != nil && existed:
+		p.Kind = "update"
+		h.UpdateFunc(deepCopyObj(old), deepCopyObj(obj))
+	case obj != nil:
+		p.Kind = "add"
+		h.AddFunc(deepCopyObj(obj))
+	case existed:
+		p.Kind = "delete"
+		h.DeleteFunc(deepCopyObj(old))
+	default:
+		return p
+	}
+	p.Delivered = v.drainQueue() > 0
+	return p
+}
+
 // Apply puts (or removes, when obj is nil) the object in the informer store of its kind and runs the
 // real lbc.sync on the corresponding task with an empty work queue.  It returns the Events recorded
 // and the status writes issued during that sync.
@@ -186,6 +255,8 @@ func (v *VerifCtl) Apply(kindName, key string, obj interface{}) (evs []VEvent, w
 	if err != nil {
 		return nil, nil, verr, err
 	}
+	old, existed, _ := s.GetByKey(key)
+	v.LastProbe = v.probe(kindName, old, existed, obj)
 	verrText := v.validationErrorText(obj)
 	if obj != nil {
 		if err := s.Add(obj); err != nil {
@@ -204,6 +275,26 @@ func (v *VerifCtl) Apply(kindName, key string, obj interface{}) (evs []VEvent, w
 	v.kube.ClearActions()
 	v.conf.ClearActions()
 	v.lbc.sync(task{Kind: k, Key: key})
+	writes = v.statusWrites()
+	evs = v.rec.take()
+	if verrText != "" {
+		verr.Expected = true
+		if ro, ok := obj.(runtime.Object); ok {
+			me := verifObjKey(ro)
+			for _, e := range evs {
+				if e.Obj == me && strings.Contains(e.msg, verrText) {
+					verr.Reported = true
+				}
+			}
+		}
+	}
+	return evs, writes, verr, nil
+}
+
+// statusWrites are the writes to status subresources (and Ingress updates) the fake clientsets saw since
+// the last ClearActions.
+func (v *VerifCtl) statusWrites() []VStatusWrite {
+	writes := []VStatusWrite{}
 	collect := func(acts []k8stesting.Action) {
 		for _, a := range acts {
 			if a.GetVerb() != "update" && a.GetVerb() != "patch" {
@@ -228,20 +319,74 @@ func (v *VerifCtl) Apply(kindName, key string, obj interface{}) (evs []VEvent, w
 		}
 		return writes[i].Key < writes[j].Key
 	})
-	if writes == nil {
-		writes = []VStatusWrite{}
+	return writes
+}
+
+// VPolicy is a Policy the harness put into the store, with the class it carries.
+type VPolicy struct {
+	Key   string `json:"key"`
+	Class string `json:"class"`
+}
+
+// VerifPolicies are two valid Policies, one of the controller's class and one of another class.
+var VerifPolicies = []VPolicy{{Key: "ns1/pol-own", Class: ""}, {Key: "ns1/pol-foreign", Class: "other"}, {Key: "ns2/pol-named", Class: "nginx"}}
+
+// Leader acquires leadership: it runs the real OnStartedLeading callback on the cluster as it is now.  Every
+// object in the stores has an Event in the API (emitted by whichever controller serves it), as in a cluster
+// that has been running; the Event list honours the involvedObject field selector.  It returns the status
+// writes issued by the callback.
+func (v *VerifCtl) Leader() []VStatusWrite {
+	nsi := v.lbc.namespacedInformers[""]
+	n := 0
+	addEvent := func(kind string, m *meta_v1.ObjectMeta) {
+		n++
+		_ = v.kube.Tracker().Add(&api_v1.Event{
+			ObjectMeta:     meta_v1.ObjectMeta{Name: fmt.Sprintf("ev-%d", n), Namespace: m.Namespace, CreationTimestamp: meta_v1.Now()},
+			InvolvedObject: api_v1.ObjectReference{Kind: kind, Namespace: m.Namespace, Name: m.Name, UID: m.UID},
+			Reason:         "AddedOrUpdated", Type: api_v1.EventTypeNormal,
+			Message: fmt.Sprintf("Configuration for %s/%s was added or updated", m.Namespace, m.Name),
+		})
 	}
-	evs = v.rec.take()
-	if verrText != "" {
-		verr.Expected = true
-		if ro, ok := obj.(runtime.Object); ok {
-			me := verifObjKey(ro)
-			for _, e := range evs {
-				if e.Obj == me && strings.Contains(e.msg, verrText) {
-					verr.Reported = true
-				}
-			}
+	for _, o := range nsi.virtualServerLister.List() {
+		addEvent("VirtualServer", &o.(*conf_v1.VirtualServer).ObjectMeta)
+	}
+	for _, o := range nsi.virtualServerRouteLister.List() {
+		addEvent("VirtualServerRoute", &o.(*conf_v1.VirtualServerRoute).ObjectMeta)
+	}
+	for _, o := range nsi.transportServerLister.List() {
+		addEvent("TransportServer", &o.(*conf_v1.TransportServer).ObjectMeta)
+	}
+	for _, p := range VerifPolicies {
+		ns, name, _ := cache.SplitMetaNamespaceKey(p.Key)
+		pol := &conf_v1.Policy{
+			ObjectMeta: meta_v1.ObjectMeta{Namespace: ns, Name: name, UID: types.UID("uid-" + name)},
+			Spec:       conf_v1.PolicySpec{IngressClass: p.Class, AccessControl: &conf_v1.AccessControl{Allow: []string{"10.0.0.0/8"}}},
 		}
+		_ = nsi.policyLister.Add(pol)
 	}
-	return evs, writes, verr, nil
+	v.kube.PrependReactor("list", "events", func(action k8stesting.Action) (bool, runtime.Object, error) {
+		la, ok := action.(k8stesting.ListAction)
+		if !ok {
+			return false, nil, nil
+		}
+		sel := la.GetListRestrictions().Fields
+		objs, err := v.kube.Tracker().List(action.GetResource(), api_v1.SchemeGroupVersion.WithKind("Event"), action.GetNamespace())
+		if err != nil {
+			return true, nil, err
+		}
+		out := &api_v1.EventList{}
+		for _, e := range objs.(*api_v1.EventList).Items {
+			name, hasName := sel.RequiresExactMatch("involvedObject.name")
+			uid, hasUID := sel.RequiresExactMatch("involvedObject.uid")
+			if (hasName && e.InvolvedObject.Name != name) || (hasUID && string(e.InvolvedObject.UID) != uid) {
+				continue
+			}
+			out.Items = append(out.Items, e)
+		}
+		return true, out, nil
+	})
+	v.kube.ClearActions()
+	v.conf.ClearActions()
+	createLeaderHandler(v.lbc).OnStartedLeading(context.Background())
+	return v.statusWrites()
 }
